@@ -298,6 +298,9 @@ def check_function(R, func, subject, mode='return', emit=(),
     R.count('paths', len(plist))
     observed = 0
     bad = []
+    bad_store = []
+    stores = 0
+    memo_params = set(func.params) - {subject, 'self'}
     for path in plist:
         flow = Flow(ctx)
         for it in path:
@@ -341,7 +344,44 @@ def check_function(R, func, subject, mode='return', emit=(),
                                 flow.inside_dep_arm(s)
                             if not ok:
                                 bad.append((path, s))
+                if mode == 'return' and isinstance(s, ast.Assign) and \
+                        len(s.targets) == 1 and isinstance(
+                            s.targets[0], ast.Subscript) and isinstance(
+                                s.targets[0].value, ast.Name) and \
+                        s.targets[0].value.id in memo_params:
+                    key = s.targets[0].slice
+                    val = s.value
+                    stores += 1
+                    if flow.uses_unstripped(key):
+                        if flow.is_tainted(val) and not (
+                                expr_sign_dependent(flow, val)
+                                or flow.inside_dep_arm(s)):
+                            bad_store.append((
+                                path, s,
+                                'is stored under the signed key '
+                                f'`{au.short(key)}` before the complement '
+                                f'of `{subject}` is applied'))
+                    elif flow.is_tainted(key):
+                        if expr_sign_dependent(flow, val):
+                            bad_store.append((
+                                path, s,
+                                'is stored under the sign-free key '
+                                f'`{au.short(key)}` after the complement '
+                                f'of `{subject}` was applied'))
                 flow.stmt(s)
+    if bad_store:
+        path, node, why = bad_store[0]
+        R.violation(
+            rule, 'memo-sign', func.qualname, f'{subject}',
+            f'memo entry `{au.short(node, 60)}`: the result {why}; a later '
+            'hit with the other sign returns the wrong polarity',
+            unit=func.unit.rel, line=node.lineno, path=pa.describe(path),
+            stmts=[au.short(node, 120)])
+    elif stores:
+        R.holds(rule, func.qualname,
+                f'memo stores of `{subject}`-keyed results are made on the '
+                f'right side of the sign fix-up ({stores} store(s) on '
+                'paths)')
     what = (f'subject `{subject}`: {observed} observation(s) of '
             f'looked-up data on {len(plist)} path(s)')
     if bad:
